@@ -42,6 +42,10 @@ func (s *srcCase) witness() string {
 // checkSrc compiles the source and compares with the expected meaning.
 func (c *Ctx) checkSrc(prop string, sc *srcCase) {
 	rep := c.Rep
+	if c.Only06 {
+		c.check06(sc.Src, arrCfg(sc.Cfg))
+		return
+	}
 	rep.States++
 	cfg := arrCfg(sc.Cfg)
 	w, err, pan := c.compile(prop, sc.Src, cfg)
